@@ -35,7 +35,8 @@ def plan(tier, seed):
     for i in range(12 if q else 72):
         specs.append({"kind": "soup", "seed": seed, "chunk": i, "n": 500, "abandon": ab})
     for i in range(4 if q else 24):
-        specs.append({"kind": "shapes", "seed": seed, "chunk": i, "abandon": ab})
+        # (empty-pattern macros left by the repeated-DEFINE recovery rewrite 1024 times, ~15 s under ASan: bounded, not KF1 - give them time)
+        specs.append({"kind": "shapes", "seed": seed, "chunk": i, "abandon": 60})
     for i in range(8 if q else 48):
         specs.append({"kind": "noise", "seed": seed, "chunk": i, "n": 120 if q else 400, "abandon": ab})
     for i in range(3 if q else 12):
@@ -116,7 +117,8 @@ def gen_cases(spec):
         progs = ["x := 1", "", " ", "\n\n", "// only a comment", "PROGRAM f DO x0 := 1 END", "x := 1 ;", "include", 'include "main"', 'include "a"',
                  'include "__standards__"', 'include "a" include "a"', "DEFINE", "DEFINE x", "DEFINE x AS", "DEFINE AS END DEFINE", "END DEFINE",
                  "DEFINE PRIO", "DEFINE PRIO 1", "DEFINE PRIO x y AS z END DEFINE", "DEFINE a AS $0 END DEFINE a", "DEFINE <V> AS $5 END DEFINE 1",
-                 "DEFINE a DEFINE b AS c END DEFINE", "DEFINE a AS b AS c END DEFINE", "DEFINE a AS DEFINE END DEFINE", "x := RUN f WITH 1, END",
+                 "DEFINE a DEFINE b AS c END DEFINE", "DEFINE a AS b AS c END DEFINE", "DEFINE a AS DEFINE END DEFINE", "DEFINE DEFINE AS $0", "DEFINE DEFINE AS $0 END DEFINE x := 1", "DEFINE PRIO 3 DEFINE DEFINE AS #0 := $1 END DEFINE", "DEFINE DEFINE AS x END DEFINE y := 1",
+                 "DEFINE a DEFINE AS $0 END DEFINE a", "DEFINE DEFINE DEFINE", "DEFINE PRIO DEFINE AS $0", "DEFINE a AS $0 DEFINE b AS $1", "DEFINE <V> DEFINE AS $0 $1 $2 END DEFINE 1", "x := RUN f WITH 1, END",
                  "x := RUN f WITH END", "PROGRAM f DO x0 := 5 END x := RUN f WITH END", "PROGRAM f IN a, a OUT a DO a := a END x := RUN f WITH 1, 2 END",
                  "PROGRAM", "PROGRAM f", "PROGRAM f IN", "PROGRAM f IN a OUT", "PROGRAM f DO", "PROGRAM f DO END", "LOOP", "LOOP x DO END", "WHILE x != 0 DO",
                  "IF x = 1 THEN GOTO", "GOTO", "x :", "x : :", ": x", "x := ", "x := 99999999999999999999999", "x := y - 99999999999999999999999", "<P>", "$7", "#0",
